@@ -19,6 +19,8 @@ EXTENDS Rat, FiniteSets, TLC
 
 CONSTANTS Tier, Dev
 
+Ev(f) == TLCEval(f)        \* force a lazily evaluated function / record into a value (evaluated once)
+
 (* ------------------------------ options -------------------------------- *)
 NoneV == <<>>
 Some(x) == <<x>>
